@@ -9,8 +9,8 @@
       the response of the sequential crew in that state (an added machine
       appears, a removed one vanishes, every walk starts from the machine's
       current state - no update is lost -, writes fail iff the store is down
-      or the record cannot be serialised, and a failed operation changes
-      nothing).  It does not say what a walk computes.
+      or a record of the batch cannot be serialised, a batch is written
+      entirely or not at all, and a failed operation changes nothing).  It does not say what a walk computes.
     - [addressed]: the machines a message is addressed to.
     - [expect]: for a tree of messages (every recorder forwards the members of
       "fwd"), who must receive what, how often. *)
@@ -67,8 +67,11 @@ Definition hist_step (h : hst) (q : req) (r : resp) : option hst :=
   | RProcess _, PProcessed err ws =>
       if forallb (walked_from_cur (h_cur h)) ws && nodup_keys (map fst ws) then
         let ch := changes ws in
-        if err then (if negb (h_up h) && negb (is_nil ch) then Some h else None)
-        else if h_up h || is_nil ch
+        (* the write of a non-empty batch succeeds iff the store is up and
+           every end state of the batch can be serialised; it fails as a whole *)
+        let can_write := h_up h && all_serialisable ch in
+        if err then (if negb can_write && negb (is_nil ch) then Some h else None)
+        else if can_write || is_nil ch
              then Some (mk_hst (set_states ch (h_cur h)) (h_up h)) else None
       else None
   | RGet, PCrew m => if mmap_eqb m (h_cur h) then Some h else None
